@@ -1,7 +1,11 @@
 """C08 — fills inside one minute follow a single continuous price path (pure part: split_candle)."""
 import itertools
 
+import random
+
 import core
+import engcorr
+import engoracles
 import jesse_env
 import purecorr
 from core import wire
@@ -11,11 +15,14 @@ class C08(core.Check):
     pid = 'C08'
     gen_keys = ['jesse/services/candle.py:split_candle', 'jesse/services/candle.py:is_bullish',
                 'jesse/services/candle.py:is_bearish', 'jesse/services/candle.py:candle_includes_price']
-    rule = ('translator cross-check: real split_candle/is_bullish/is_bearish/candle_includes_price vs the generated Lean '
+    rule = ('matching loop: whole sessions of the normal simulator with volatile candles and tight exits (several orders '
+            'reachable inside one minute, reaction orders placed by hooks) on the real engine and on the Lean engine model, '
+            'identical fill sequences required; path oracle on the real traces: the fills of one minute lie in order on one '
+            'continuous O-L-H-C / O-H-L-C path; translator cross-check: real split_candle/is_bullish/is_bearish/candle_includes_price vs the generated Lean '
             'definitions on every valid candle of a 7-point lattice x every lattice price, plus seeded random decimal candles; '
             'oracle: the C08 clauses and equality with Spec.pathSplit (computed by the Lean driver) on the real function; '
             'a case is non-trivial when the price lies inside the range; distinct = distinct (candle, price, reply)')
-    assumptions = ['the continuous-path ordering of fills by the simulator loop is covered by the C02/C08 matching model (see DESIGN)']
+    assumptions = []
 
     def lattice_cases(self, pts):
         for o, h, l, c in itertools.product(pts, repeat=4):
@@ -57,8 +64,38 @@ class C08(core.Check):
             batch.append(('is_bullish', kw, (lambda k=k: cs.is_bullish(k)), 'is_bullish'))
             batch.append(('is_bearish', kw, (lambda k=k: cs.is_bearish(k)), 'is_bearish'))
         purecorr.cross_check(res, batch)
+        # the matching loop: whole sessions of the normal simulator on the real engine and on the Lean engine model
+        rng = random.Random(self.seed * 7919 + 8)
+        sessions = [engcorr.gen_session(rng, fast=False, max_n=60, tight=True, vol=rng.choice([10, 16, 24]),
+                                        gap_prob=rng.choice([0.1, 0.4]), lengths=[15, 20, 30], data=False, allow_two=False)
+                    for _ in range(self.budget(60, 1000, boost))]
+        engcorr.compare_sessions(res, sessions)
+
+    def path_oracle(self, res, boost):
+        rng = random.Random(self.seed * 104729 + 8)
+        for _ in range(self.budget(80, 1500, boost)):
+            sess = engcorr.gen_session(rng, fast=False, max_n=60, tight=True, vol=rng.choice([10, 16, 24]),
+                                       gap_prob=rng.choice([0.1, 0.4]), lengths=[15, 20, 30], data=rng.random() < 0.3)
+            cands = engcorr.candles_of(sess)
+            ev, tr, err = engcorr.run_real(sess, cands)
+            bad = engoracles.c08_violations(sess, cands, tr)
+            multi = {}
+            for e in tr.events:
+                if e[0] == 'FILL':
+                    multi[e[2]] = multi.get(e[2], 0) + 1
+            res.seen(('path', sess['candle_seed']), any(v > 1 for v in multi.values()))
+            res.count('path-sessions')
+            res.count('minutes-with-several-fills', sum(1 for v in multi.values() if v > 1))
+            for (what, k, info) in bad[:2]:
+                res.fail(**{'class': 'matching/' + what, 'input': {'session': {kk: sess[kk] for kk in (
+                    'kind', 'fee', 'leverage', 'isolated', 'fast', 'routes', 'droutes', 'n', 'scripts', 'candle_seed', 'vol', 'gap_prob')}},
+                    'observed': {'order': k, 'info': info}})
 
     def oracle(self, res, boost):
+        self.path_oracle(res, boost)
+        self.split_oracle(res, boost)
+
+    def split_oracle(self, res, boost):
         jesse_env.setup()
         import numpy as np
         from jesse.services import candle as cs
